@@ -11,20 +11,21 @@ Definition JCell (c : cell) : J := match c with Some z => JZ z | None => JNaN en
 Definition JRows (rows : list row) : J := JL (map (fun r => JL (map JCell r)) rows).
 Definition JLabels (lf : lframe) : J := JL (map (fun p => JZ (fst p)) lf).
 
-(* observation = [kind of result; index labels (None for arrays); values row by row;
+(* observation = [kind of result; number of columns; index labels (None for arrays); values row by row;
                   index labels and values of the ARGUMENT re-inspected after the call] *)
-Definition obs_form (res : lframe -> lframe) (resa : list row -> list row) (lf : lframe) (f : form) : J :=
+Definition obs_form (k : nat) (call : lframe -> lframe * lframe) (resa : list row -> list row) (lf : lframe) (f : form) : J :=
+  let '(res, arg) := call lf in
   match f with
-  | FS => JL [JS "S"; JLabels (res lf); JRows (map snd (res lf)); JLabels lf; JRows (map snd lf)]
-  | FD => JL [JS "D"; JLabels (res lf); JRows (map snd (res lf)); JLabels lf; JRows (map snd lf)]
-  | FA1 => JL [JS "A1"; JNone; JRows (resa (map snd lf)); JNone; JRows (map snd lf)]
-  | FA2 => JL [JS "A2"; JNone; JRows (resa (map snd lf)); JNone; JRows (map snd lf)]
+  | FS => JL [JS "S"; JZ (Z.of_nat k); JLabels res; JRows (map snd res); JLabels arg; JRows (map snd arg)]
+  | FD => JL [JS "D"; JZ (Z.of_nat k); JLabels res; JRows (map snd res); JLabels arg; JRows (map snd arg)]
+  | FA1 => JL [JS "A1"; JZ (Z.of_nat k); JNone; JRows (resa (map snd lf)); JNone; JRows (map snd arg)]
+  | FA2 => JL [JS "A2"; JZ (Z.of_nat k); JNone; JRows (resa (map snd lf)); JNone; JRows (map snd arg)]
   end.
 
 Definition run_fill (c : nat * option nat * list meth * lframe * list form) : J :=
   let '(k, lim, ms, lf, forms) := c in
-  JL (map (obs_form (fill k lim ms) (fill_array k lim ms) lf) forms).
+  JL (map (obs_form k (fill_call k lim ms) (fill_array k lim ms) lf) forms).
 
-Definition run_nona (c : cell * edge * lframe * list form) : J :=
-  let '(value, e, lf, forms) := c in
-  JL (map (obs_form (nona_f value e) (nona_array value e) lf) forms).
+Definition run_nona (c : nat * cell * edge * lframe * list form) : J :=
+  let '(k, value, e, lf, forms) := c in
+  JL (map (obs_form k (nona_call value e) (nona_array value e) lf) forms).
